@@ -1,5 +1,5 @@
 (* The single entry point of the correspondence drivers. *)
-From PV Require Import Common.Wire Frame.Dispatch Chain.Dispatch Socks.Dispatch Mux.Dispatch Flow.Dispatch Keepalive.Model Atomic.Model Gate.Model Client.Backoff Tls.Model.
+From PV Require Import Common.Wire Frame.Dispatch Chain.Dispatch Socks.Dispatch Mux.Dispatch Flow.Dispatch Keepalive.Model Atomic.Model Gate.Model Client.Backoff Tls.Model Tunnel.Direct.
 
 Definition dispatch (c : list N) : list N :=
   match c with
@@ -13,5 +13,6 @@ Definition dispatch (c : list N) : list N :=
   | 14 :: r => run_gate r
   | 19 :: r => run_client r
   | 17 :: r => run_tls r
+  | 1 :: r => run_tunnel r
   | _ => MALFORMED
   end.
